@@ -26,11 +26,14 @@ def _gen(ctx, module, constants, name, L=None, simulate=None, depth=None, invari
 
 
 # ----------------------------------------------------------------------------- XOF
-def xof_consts(init, mid, chunks, L):
-    return {"InitSeeds": list(init), "MidSeeds": list(mid), "Chunks": list(chunks), "L": L}
+ALL_OPS = ["New", "Write", "Read", "Xor", "Reseed", "Reset", "Clone"]
 
 
-XOF_PROPS = ["CloneExact", "WriteGuard", "ReseedWritable", "ResetSpec"]
+def xof_consts(init, mid, chunks, L, ops=ALL_OPS):
+    return {"InitSeeds": list(init), "MidSeeds": list(mid), "Chunks": list(chunks), "L": L, "Ops": list(ops)}
+
+
+XOF_PROPS = ["CloneExact", "WriteGuard", "ReseedWritable", "ResetSpec", "Isolation"]
 
 
 def _all_ops(res):
@@ -74,6 +77,20 @@ def xof_part(ctx):
     s1 = rnd.sample(SEEDS, 1)
     bh = _gen(ctx, "XOF", xof_consts(s1, s1, c2, 5 if q else 6), "C19_xof_deep")
     _all_ops(ctx.run_vh("xof", ["-in", bh, "-bindings", 1 if q else 2], binary=vh))
+    os.remove(bh)
+    # 3b. focus: clones of reseeded handles and what is done to them (Reseed; Clone; Reset(clone) / Reset(both);
+    # further calls on the -- now unspecified -- clone; interleaved reads): exhaustive over the reduced menu; the
+    # factory-made handle is judged against the reference after every step, the clone after its Reset never
+    c1 = rnd.sample([c for c in CHUNKS if c], 1 if q else 2)
+    s1 = rnd.sample(SEEDS, 1)
+    bh = os.path.join(ctx.tmp, "C19_xof_focus.ndjson")
+    run = ctx.tlc("XOF", cfg(constants=xof_consts(s1, [], c1, 6, ops=["Reseed", "Clone", "Reset", "Read"] + ([] if q else ["Xor"])),
+                             invariants=["TypeOK", "Refines", "Emit"], properties=XOF_PROPS), name="C19_xof_focus", collect=bh)
+    if run["behaviours"] == 0:
+        raise Broken("generator C19_xof_focus produced no behaviours")
+    res = ctx.run_vh("xof", ["-in", bh, "-bindings", 1 if q else 2], binary=vh)
+    if not ((res.get("extra") or {}).get("unspec_steps")):
+        raise Broken("vacuous focus run: no call on an unspecified clone was replayed")
     os.remove(bh)
     # 4. long random behaviours (30 steps), full menus
     bh = _gen(ctx, "XOF", xof_consts(SEEDS, SEEDS, CHUNKS, 30), "C19_xof_sim",
@@ -219,27 +236,34 @@ C20_ASSUME = [
 def c20(ctx):
     q = ctx.quick
     wl = os.path.join(ctx.tmp, "C20_workloads.ndjson")
-    ctx.tlc("SharedRead", cfg(constants={"G": 2, "Kinds": SR_KINDS, "Lazy": []}, invariants=SR_INV), name="C20_pairs", collect=wl)
+    ctx.tlc("SharedRead", cfg(constants={"G": 2, "Kinds": SR_KINDS, "Lazy": [], "Cached": []}, invariants=SR_INV), name="C20_pairs", collect=wl)
     files = [wl]
     if not q:
         w3 = os.path.join(ctx.tmp, "C20_workloads3.ndjson")
-        ctx.tlc("SharedRead", cfg(constants={"G": 3, "Kinds": SR_KINDS, "Lazy": []}, invariants=SR_INV), name="C20_triples", collect=w3)
+        ctx.tlc("SharedRead", cfg(constants={"G": 3, "Kinds": SR_KINDS, "Lazy": [], "Cached": []}, invariants=SR_INV), name="C20_triples", collect=w3)
         files.append(w3)
         # self-test of the model: a lazily normalising read-only method (the implementation layer of finding #9)
         # must violate NoConflict
-        run = ctx.tlc("SharedRead", cfg(constants={"G": 2, "Kinds": ["point"], "Lazy": ["point/MarshalBinary", "point/String", "point/Data"]},
+        run = ctx.tlc("SharedRead", cfg(constants={"G": 2, "Kinds": ["point"], "Lazy": ["point/MarshalBinary", "point/String", "point/Data"], "Cached": []},
                                         invariants=["TypeOK", "NoConflict", "ResultsSequential"]),
                       name="C20_lazy_selftest", allow_violation=True)
         if not run["violated"]:
             raise Broken("self-test failed: the SharedRead model does not flag in-place normalisation inside a read-only method")
         # the same for a lazily created field of a fresh suite object (first concurrent RandomStream() calls)
-        run = ctx.tlc("SharedRead", cfg(constants={"G": 2, "Kinds": ["suite"], "Lazy": ["suite/RandomStream"]},
+        run = ctx.tlc("SharedRead", cfg(constants={"G": 2, "Kinds": ["suite"], "Lazy": ["suite/RandomStream"], "Cached": []},
                                         invariants=["TypeOK", "NoConflict", "ResultsSequential"]),
                       name="C20_lazy_suite_selftest", allow_violation=True)
         if not run["violated"]:
             raise Broken("self-test failed: the SharedRead model does not flag lazy initialisation inside a suite's read-only method")
+        # and for a package-level cache keyed by the operand (visible only when DIFFERENT shared operands are in flight)
+        run = ctx.tlc("SharedRead", cfg(constants={"G": 2, "Kinds": ["point"], "Lazy": [], "Cached": ["point/MulOperand"]},
+                                        invariants=["TypeOK", "NoConflict", "ResultsSequential"]),
+                      name="C20_cached_selftest", allow_violation=True)
+        if not run["violated"]:
+            raise Broken("self-test failed: the SharedRead model does not flag a package-level cache keyed by the operand")
         ctx.cov["extra"].setdefault("selftests", []).append({"lazy_normalisation_flagged_by_model": True,
-                                                             "lazy_suite_field_flagged_by_model": True})
+                                                             "lazy_suite_field_flagged_by_model": True,
+                                                             "package_level_cache_flagged_by_model": True})
     race = _bin(ctx, race=True)
     for i, f in enumerate(files):
         if sum(1 for _ in open(f)) == 0:
@@ -255,7 +279,7 @@ def c20(ctx):
         if hr:
             raise Broken("the race detector reported a race that does not touch kyber (harness defect):\n" + hr[0][:3000])
     return ctx.finish("exploration",
-                      "workload = (object kind, representation (decoded / arith values; fresh = new suite / scheme / mask / PubPoly object whose first calls are made concurrently by the goroutines; warm = one stream object shared), multiset of 2 (thorough: also 3) read-only operations) enumerated by TLC from spec/SharedRead.tla x configuration (21 groups, 9 scalar implementations, 9 suites, 5 pairing suites, BDN/CoSi masks, 5 PubPoly groups, 11 verifiers); distinct = (kind, configuration, representation, operations)",
+                      "workload = (object kind, representation (decoded / arith values; fresh = new suite / scheme / mask / PubPoly object whose first calls are made concurrently by the goroutines; warm = one stream object shared), objects (same = one shared object; distinct = the operations run on two different shared objects concurrently through the same suite / scheme / package code), multiset of 2 (thorough: also 3) read-only operations) enumerated by TLC from spec/SharedRead.tla x configuration (21 groups, 9 scalar implementations, 9 suites, 5 pairing suites, BDN/CoSi masks, 5 PubPoly groups, 11 verifiers); distinct = (kind, configuration, representation, operations)",
                       C20_ASSUME, exhaustive=False)
 
 
